@@ -42,7 +42,9 @@ enum Out {
 
 pub struct Variant {
     pub persist_udp_off: bool,
-    pub reset_retry: bool,
+    /// bit i: the i-th connection reset met by the walk is followed by one immediate re-attempt on
+    /// a new connection (what a client does for a *reused* connection the peer had closed)
+    pub reset_retry_mask: u32,
 }
 
 pub fn walk(servers: &[Srv], order: &[usize], conc: usize, t_ms: u64, v: &Variant) -> WalkOut {
@@ -54,6 +56,7 @@ pub fn walk(servers: &[Srv], order: &[usize], conc: usize, t_ms: u64, v: &Varian
     let mut udp_off = vec![false; servers.len()];
     let mut cnt: BTreeMap<(usize, bool), usize> = BTreeMap::new();
     let mut ccnt: BTreeMap<usize, usize> = BTreeMap::new();
+    let mut resets_seen: u32 = 0;
     let mut rounds = 0;
 
     loop {
@@ -91,7 +94,7 @@ pub fn walk(servers: &[Srv], order: &[usize], conc: usize, t_ms: u64, v: &Varian
         let mut results: Vec<(u64, u8, usize, Out)> = vec![];
         for &s in &batch {
             let tcp = udp_off_all || udp_off[s];
-            let (end, out) = attempt(servers, s, tcp, t, t_ms, v, &mut cnt, &mut ccnt);
+            let (end, out) = attempt(servers, s, tcp, t, t_ms, v, &mut cnt, &mut ccnt, &mut resets_seen);
             // at equal instants an unjudged outcome is processed first (nothing is demanded then)
             let prio = if out == Out::Unjudged { 0 } else { 1 };
             results.push((end, prio, s, out));
@@ -128,6 +131,7 @@ fn attempt(
     v: &Variant,
     cnt: &mut BTreeMap<(usize, bool), usize>,
     ccnt: &mut BTreeMap<usize, usize>,
+    resets_seen: &mut u32,
 ) -> (u64, Out) {
     let mut now = t;
     let mut retried = false;
@@ -152,7 +156,9 @@ fn attempt(
             Step::Silent => (now + t_ms, Out::Fail),
             Step::IoErr(l) => (now + l, Out::Fail),
             Step::Reset(l) => {
-                if v.reset_retry && !retried {
+                let bit = *resets_seen;
+                *resets_seen += 1;
+                if bit < 32 && v.reset_retry_mask & (1 << bit) != 0 && !retried {
                     retried = true;
                     now += l;
                     continue;
@@ -178,10 +184,19 @@ pub fn admissible_orders(strategy: &str, n: usize) -> Vec<Vec<usize>> {
 /// deadline (a definitive result is demanded). `Some(false)`: not demanded. `None`: unjudged.
 pub fn must_be_definitive(servers: &[Srv], strategy: &str, conc: usize, t_ms: u64) -> Option<bool> {
     let mut all = true;
+    // one choice bit per scripted reset (at most 6; later resets are not re-attempted)
+    let resets: usize = servers
+        .iter()
+        .map(|s| {
+            let c = |sc: &crate::net::Script<Step>| sc.steps.iter().chain([&sc.rest]).filter(|x| matches!(x, Step::Reset(_))).count();
+            c(&s.udp) + s.tcp.as_ref().map(c).unwrap_or(0)
+        })
+        .sum();
+    let masks = 1u32 << resets.min(6);
     for order in admissible_orders(strategy, servers.len()) {
         for persist_udp_off in [true, false] {
-            for reset_retry in [false, true] {
-                match walk(servers, &order, conc, t_ms, &Variant { persist_udp_off, reset_retry }) {
+            for reset_retry_mask in 0..masks {
+                match walk(servers, &order, conc, t_ms, &Variant { persist_udp_off, reset_retry_mask }) {
                     WalkOut::Unjudged => return None,
                     WalkOut::Definitive(t) if t < t_ms => {}
                     _ => all = false,
